@@ -609,6 +609,65 @@ def passthrough_kinds(ctx, fx, W, rule):
             ctx.ok(rule, W, "passthrough:%s" % kind, "with the parameter a JSON %s no exit returns it unprocessed (%d raw-copy exit(s) exist for scalars only)" % (kind.lower(), len(raw_exits)))
 
 
+def _is_result_of(v, fname, depth=0):
+    """v is, on every alternative, the (unwrapped) result of a call of `fname`: only `?` / Ok-projections and aliases in between"""
+    v = peel(v)
+    if depth > 12:
+        return False
+    if v.kind == "phi":
+        alts = [k for k in v.kids if k.kind != "cycle"]
+        return bool(alts) and all(_is_result_of(k, fname, depth + 1) for k in alts)
+    if v.kind in ("variant", "field") and v.kids:
+        return _is_result_of(v.kids[0], fname, depth + 1)
+    if v.kind == "call":
+        t = v.d["term"]
+        if t.get("resolved_local") and t.get("resolved") == fname:
+            return True
+        if t.get("name") in common.TRANSPARENT_OUTCOME and v.kids:
+            return _is_result_of(v.kids[0], fname, depth + 1)
+    return False
+
+
+def entry_walk_always(ctx, fx, U, rule):
+    """must-pass-through at the root: in the function that turns the verified payload into the verified claims, every exit that is not an
+    Err lies behind the call of the disclosure-processing walk, and what is returned is that call's result. A shortcut in front of it
+    ('no disclosures were presented: strip the root `_sd` and return the payload') leaves nested digest lists and array placeholders in
+    the output and skips the duplicate-digest / placeholder checks, whatever the walk itself does."""
+    fn = U.entry
+    names = set(f.name for f in U.fns) - {fn.name}
+    wcalls = [b for b, t in fn.calls() if t.get("resolved_local") and t.get("resolved") in names]
+    if not wcalls:
+        ctx.missing(rule, "root walk", "%s makes no call into the unpacking functions" % fn.name)
+        return
+    r = cfg.reachable(fn, [0], removed_blocks=wcalls)
+    bad = [e for e in cfg.exit_sites(fn) if e["kind"] not in ("Err", "residual") and e["bb"] in r and e["bb"] not in wcalls]
+    fv = vals(fn)
+    rv = fv.return_value()
+    nodes = [fv.call_node(b) for b in wcalls]
+    from_walk = may(rv, lambda x: any(x is n_ for n_ in nodes))
+    if bad:
+        ctx.finding(rule, fn, "root-walk-always", "the verified claims can be produced without the disclosure-processing walk (an Ok exit is reachable around the call of the walker): nested `_sd` lists / "
+                    "array placeholders survive in the output and the duplicate-digest and placeholder checks are skipped", line=bad[0].get("line"))
+    elif not from_walk:
+        ctx.finding(rule, fn, "root-walk-always", "what %s returns is not the result of the disclosure-processing walk: %s" % (fn.name, vstr(rv, 4)))
+    else:
+        ctx.ok(rule, fn, "root-walk-always", "every non-Err exit of %s lies behind the call of the walker, whose result is what is returned" % fn.name.split("::")[-1])
+    # one level up: whatever is stored as the verified claims is, on every alternative, the result of that function
+    ws = common.struct_field_writes(fx, VSTRUCT, "verified_claims") or []
+    nw = 0
+    for w in ws:
+        if w["how"] == "init" or w.get("value") is None or w["fn"].is_macro_generated():
+            continue
+        nw += 1
+        okw = _is_result_of(w["value"], fn.name)
+        if okw:
+            ctx.ok(rule, w["fn"], "claims-from-walk", "verified_claims is assigned the result of %s on every alternative" % fn.name.split("::")[-1], line=w.get("line"))
+        else:
+            ctx.finding(rule, w["fn"], "claims-from-walk", "verified_claims can be assigned a value that is not the result of %s (a shortcut around the disclosure processing): %s"
+                        % (fn.name.split("::")[-1], vstr(w["value"], 4)), line=w.get("line"))
+    ctx.floor(rule, "assignments of verified_claims", nw, 1)
+
+
 def v6(ctx, fx, U, rule):
     """every value that is placed in the output — a disclosed member, a disclosed array element, a copied payload member, a pushed
     array element — is the result of the full recursive walker, on every path (no shallow 'nothing hidden here' shortcut)"""
@@ -617,6 +676,7 @@ def v6(ctx, fx, U, rule):
         ctx.missing(rule, "walker", "cannot identify the recursive `&Value -> Result<Value>` walker")
         return
     passthrough_kinds(ctx, fx, W, rule)
+    entry_walk_always(ctx, fx, U, rule)
     n = 0
     for (fn, b, node, lk) in U.obj_sinks:
         n += 1
